@@ -1,5 +1,10 @@
 (** C09: the hypotheses of the exactness and loop theorems are satisfiable
     (a concrete chain A <- B <- C over mixed state kinds, and a 3-cycle). *)
 From Verif Require Import Json Outcome State Location SysOps LocSpec LocExamples.
+From Verif Require LocProofs.
 Definition chain_example := ex_chain_by_theorem.
 Definition cycle_example := ex_cycle_by_theorem.
+(** noninterference_history asks the untouched location to have no purge pending (D52's repair:
+    a walk that reads an ancestor's parents runs the ancestor's pending purge). *)
+Definition noninterference_history_needs_no_pending :=
+  Verif.LocProofs.noninterference_history_pending_counterexample.
